@@ -175,6 +175,40 @@ pub fn parse(rest: &str) -> String {
     format!("ast errs={} errlines=[{}] {}", nerr, lines.join(","), program(&prog))
 }
 
+/// canonical text of an expression of the operator / atom sub-grammar (the format of
+/// `P2sh.Parser.PExpr.canon` in the Lean model); anything else prints as `(other)`
+fn pcanon(e: &Expression) -> String {
+    match e {
+        Expression::Integer(n) => format!("(int {})", n.value),
+        Expression::Bool(b) => format!("(bool {})", if b.value { "t" } else { "f" }),
+        Expression::Ident(i) => format!("(id {})", wire::hex(i.value.as_bytes())),
+        Expression::Unary(u) => format!("(un {:?} {})", u.token.ttype, pcanon(&u.right)),
+        Expression::Binary(b) => format!("(bin {:?} {} {})", b.token.ttype, pcanon(&b.left), pcanon(&b.right)),
+        Expression::Assign(a) => format!("(assign {} {})", pcanon(&a.left), pcanon(&a.right)),
+        Expression::Range(r) => format!("(range {:?} {} {})", r.token.ttype, pcanon(&r.begin), pcanon(&r.end)),
+        Expression::Index(i) => format!("(index {} {})", pcanon(&i.left), pcanon(&i.index)),
+        Expression::Call(c) => {
+            let args: Vec<String> = c.args.iter().map(|a| format!(" {}", pcanon(a))).collect();
+            format!("(call {}{})", pcanon(&c.func), args.join(""))
+        }
+        _ => "(other)".to_string(),
+    }
+}
+
+/// `pexpr <hex src> [@@ …]`: the real parser on a program that is one expression statement (C03)
+pub fn pexpr(rest: &str) -> String {
+    let Some(src) = src_of(rest) else { return "bad-op".into() };
+    let mut parser = Parser::new(Scanner::new(&src));
+    let prog = parser.parse_program();
+    if !parser.parse_errors().is_empty() {
+        return "perr".into();
+    }
+    match prog.statements.as_slice() {
+        [Statement::Expr(e)] => format!("ok {}", pcanon(&e.value)),
+        _ => "multi".into(),
+    }
+}
+
 fn nums<T: std::fmt::Display>(xs: &[T]) -> String {
     let v: Vec<String> = xs.iter().map(|x| x.to_string()).collect();
     v.join(",")
